@@ -18,7 +18,7 @@ RULE = ('Complete enumeration of every cell name of GSC180, NANGATE, NANGATE_ZN,
         'implementation circuit and compared per output pin with a hand-written datasheet table. non-trivial: cell has a datasheet function '
         'with >= 2 inputs; distinct = distinct (library, cell). Part lookup: all 20 ordered pairs of libraries swept through pin_index / pin_is_output in '
         'one process (first, second, first again) against the declaration order of the own expansion; non-trivial: the two libraries share '
-        'a cell name with other pins or another pin order. Before the first cell is judged, each worker also looked pins up by position and by unknown names (directly and through netlists with positional connections), errors ignored.')
+        'a cell name with other pins or another pin order. Before the first cell is judged, each worker also looked pins up by position and by unknown names (directly and through netlists with positional connections), errors ignored. Part isolation: for every ordered pair of libraries and a sample of the cell names they share, the implementation circuit of the first library\'s cell is edited in place (gate kinds changed), the second library\'s cell is judged as in part cells, the edit is undone. An entry for which the module source holds no declaration text is judged against the port order of its own implementation.')
 ASSUMPTIONS = ['datasheet functions in vk/datasheet.py are written from the vendor naming conventions (Nangate A/B1/B2, SAED A1../IN1.., GSC A0/B0)',
                'implementation circuits are evaluated with kyupy LogicSim(m=2) (decided separately by C01)']
 
@@ -134,10 +134,13 @@ def prop(case):
     exp = expected_cells(lib)
     if name not in tlib.cells:
         raise Violation(f'{lib}: name {name} of the library source does not expand to a definition')
-    if name not in exp:
-        raise Violation(f'{lib}: entry {name} does not correspond to any name in the library source')
-    ins, outs, body = exp[name]
     impl, pin_dict = tlib.cells[name]
+    from_source = name in exp
+    if from_source:
+        ins, outs, body = exp[name]
+    else:       # no declaration text found for this entry (the module may assemble its libraries differently): the implementation's own port order is the declaration
+        ins = [n.name for n in impl.io_nodes if len(n.ins) == 0]
+        outs = [n.name for n in impl.io_nodes if len(n.ins) > 0]
     # (a) pin table
     want = {p: (i, False) for i, p in enumerate(ins)}
     want.update({p: (i, True) for i, p in enumerate(outs)})
@@ -153,7 +156,7 @@ def prop(case):
     if [n.name for n in impl_in] != ins or [n.name for n in impl_out] != outs:
         raise Violation(f'{lib}.{name}: implementation ports {[n.name for n in impl_in]} -> {[n.name for n in impl_out]} '
                         f'!= declared {ins} -> {outs}')
-    labels = [lib]
+    labels = [lib] + ([] if from_source else ['declaration_taken_from_the_implementation'])
     sp = datasheet.spec(name, (ins, outs))
     if sp is None:
         labels.append('no_datasheet_family')
@@ -188,6 +191,39 @@ def prop(case):
     return Obs(n >= 2, labels, checks=len(outs) * sims)
 
 
+def enum_isolation(tier):
+    import kyupy.techlib as tl
+    for a in LIBS:
+        for b in LIBS:
+            if a != b:
+                shared = sorted(set(getattr(tl, a).cells) & set(getattr(tl, b).cells))
+                for name in shared[::max(1, len(shared) // (24 if tier == 'thorough' else 8))]:
+                    yield dict(edited=a, lib=b, cell=name)
+
+
+def prop_isolation(case):
+    """a caller edits the implementation circuit of a cell of one library in place (a modelled defect: the kind of its first gate is changed);
+    the cell of the same name in another library is judged afterwards and must be what it was. The edit is undone before returning."""
+    import kyupy.techlib as tl
+    impl = getattr(tl, case['edited']).cells[case['cell']][0]
+    ports = {id(n) for n in impl.io_nodes}
+    gates = [n for n in impl.nodes if n.kind != '__fork__' and id(n) not in ports]
+    if not gates:
+        return Obs(False, ['no_gate_to_edit'])
+    saved = [(n, n.kind) for n in gates]
+    try:
+        for n in gates:
+            n.kind = 'INV1' if n.kind.upper().startswith('BUF') else 'BUF1'
+        try:
+            obs = prop(dict(lib=case['lib'], cell=case['cell']))
+        except Violation as v:
+            raise Violation(f'after an in-place edit of {case["edited"]}.{case["cell"]} (a different library): {v}') from None
+    finally:
+        for n, k in saved:
+            n.kind = k
+    return Obs(True, [f'{case["edited"]}_then_{case["lib"]}'], checks=obs.checks)
+
+
 def enum_lookup(tier):
     for a in LIBS:
         for b in LIBS:
@@ -220,4 +256,5 @@ def prop_lookup(case):
 
 
 PARTS = [Part('cells', prop, enumerate=enum_cells, quick=(8, 0), thorough=(16, 0)),
-         Part('lookup', prop_lookup, enumerate=enum_lookup, quick=(4, 0), thorough=(4, 0))]
+         Part('lookup', prop_lookup, enumerate=enum_lookup, quick=(4, 0), thorough=(4, 0)),
+         Part('isolation', prop_isolation, enumerate=enum_isolation, quick=(2, 0), thorough=(4, 0))]
